@@ -285,6 +285,15 @@ class Contract:
         return bound
 
     def apply(self, eng, st: State, pos, kw, node=None):
+        # a union-valued argument (Optional, ...) that does not fit the declared kind as a whole is split
+        # into its feasible alternatives; infeasible ones (e.g. None after a truthiness test) are pruned
+        for i, v in enumerate(pos):
+            if isinstance(v, UnionV) and i < len(self.params) and not isinstance(self.params[i][1], (KOpt, KUnion)) \
+                    and not is_typevar(self.params[i][1]):
+                outs = []
+                for s2, alt in eng.split(st, v):
+                    outs.extend(self.apply(eng, s2, [*pos[:i], alt, *pos[i + 1:]], kw, node))
+                return outs
         bound = self.bind_args(pos, kw)
         env = {}
         subst: dict = {}
@@ -952,6 +961,10 @@ class Verifier(Engine):
         return ex
 
     def _check_exit(self, c, st, val, env, genv, ex):
+        if c.ret is not None and not fits(val, c.ret) and isinstance(val, UnionV):
+            for s2, alt in self.split(st, val):  # only the alternatives feasible on this path
+                self._check_exit(c, s2, alt, env, genv, ex)
+            return
         if c.ret is not None and not fits(val, c.ret):
             self.oblige("post", "result-kind", st, z3.BoolVal(False), ex.lineno,
                         info={"why": f"result kind {val.kind!r} does not fit declared {c.ret!r}"})
